@@ -82,7 +82,7 @@ EndCall(e) ==
                  !.cancelonly = Obs!CancelledOnlyWithCtx(c.op, e.res, c.ctx >= 1),
                  !.free       = Obs!FreeOpsNeverFail(c.op, e.res),
                  !.dict       = Obs!DictOpsSucceed(c.op, e.res),
-                 !.firstclose = Obs!FirstCloseOk(c.op, c.pb, e.res),
+                 !.firstclose = Obs!CloseResult(c.op, e.res) /\ Obs!CloseOkOnce(c.op, phase, e.res),
                  !.precancel  = Obs!PreCancelledFails(c.ctx = 2, e.res),
                  !.usable     = Obs!UsableAfterCancel(c.ac = 1, pe, e.res),
                  \* a dictionary obtained successfully is held with `open` true: the writer cannot be inside
@@ -123,7 +123,7 @@ ClosedOnlyIfCloseBegan  == chk.closedonly
 CancelledOnlyWithCtx    == chk.cancelonly
 StatsNeverFail          == chk.free
 DictOpsSucceed          == chk.dict
-FirstCloseOk            == chk.firstclose
+CloseOkOrClosedOnce     == chk.firstclose
 PreCancelledFails       == chk.precancel
 UsableAfterCancel       == chk.usable
 ReaderExcludesWriter    == chk.rdr
